@@ -36,7 +36,7 @@ def gen(rng, n_cases, max_n=36):
         yield {"cls": "rnc", "metric": metric, "n_survive": n_survive, "F": F, "G": np.zeros((n, 0)), "H": np.zeros((n, 0)),
                "seed": int(rng.randint(2**31 - 1)), "both_engines": bool(rng.randint(2) == 0) and not big,
                # another survival with another metric has just truncated the same front
-               "warm": "rival-metric" if rng.randint(3) == 0 else "none"}
+               "warm": ["rival-metric", "other-nobj", "none", "none", "none", "none"][rng.randint(6)]}
 
 
 def case_from_record(rec):
